@@ -6,6 +6,7 @@ import (
 	"verif/harness/c04/cx"
 	"verif/harness/hx"
 	"verif/harness/protox"
+	"verif/harness/sopx"
 )
 
 func main() {
@@ -37,6 +38,21 @@ func main() {
 			p.Schedule = cx.RandomSchedule(r, 2)
 			jobs = append(jobs, cx.Job{P: p, Bucket: "c10-conc", NoModel: true})
 		}
+		// first insert into an EMPTY store by two racing writers, colliding on a unique key: the loser rolls back
+		// its half-done new-root step and must not take the winner's registered root blob with it
+		nroot := 4
+		if cfg.Tier == "thorough" {
+			nroot = 40
+		}
+		for i := 0; i < nroot; i++ {
+			p := &cx.Program{Store: sopx.StoreOpts{Slot: hx.Pick(r, []int{2, 4}), Unique: true, InNode: i%2 == 0}, HashMod: 2, MaxTimeMs: 25000, Note: "c10/first-insert-race"}
+			p.Writers = []cx.Writer{{Label: "W1", Ops: []cx.Op{{Kind: "add", Key: 1, Val: 1001}}}, {Label: "W2", Ops: []cx.Op{{Kind: "add", Key: 1, Val: 2001}}}}
+			if r.Chance(50) {
+				p.Writers[1].Ops = append(p.Writers[1].Ops, cx.Op{Kind: "add", Key: 2, Val: 2002})
+			}
+			p.Schedule = cx.RandomSchedule(r, 2)
+			jobs = append(jobs, cx.Job{P: p, Bucket: "c10-conc", NoModel: true})
+		}
 		outs := cx.RunAll(jobs, 6, false)
 		for i, o := range outs {
 			p := jobs[i].P
@@ -62,11 +78,18 @@ func main() {
 			res.Evaluations++
 			switch {
 			case o.DumpErr != "":
-				res.Fail("dangling-reference/concurrent-disjoint-adds", fmt.Sprintf("two writers adding disjoint keys to one store with out-of-node values (merged=%v, committed=%d): the cold traversal in a fresh process failed: %s", merged, committed, o.DumpErr), map[string]any{"concurrent": p})
+				res.Fail("dangling-reference/concurrent-disjoint-adds", fmt.Sprintf("two concurrent writers (%s; merged=%v, committed=%d): the cold traversal in a fresh process failed: %s", noteOf(p), merged, committed, o.DumpErr), map[string]any{"concurrent": p})
 			case o.Dump != nil && o.Dump.Err != "":
-				res.Fail("dangling-reference/concurrent-disjoint-adds", fmt.Sprintf("two writers adding disjoint keys to one store with out-of-node values (merged=%v, committed=%d): the cold traversal in a fresh process failed: %s", merged, committed, o.Dump.Err), map[string]any{"concurrent": p})
+				res.Fail("dangling-reference/concurrent-disjoint-adds", fmt.Sprintf("two concurrent writers (%s; merged=%v, committed=%d): the cold traversal in a fresh process failed: %s", noteOf(p), merged, committed, o.Dump.Err), map[string]any{"concurrent": p})
 			}
 		}
 		return res, nil
 	})
+}
+
+func noteOf(p *cx.Program) string {
+	if p.Note == "c10/first-insert-race" {
+		return "first insert into an empty unique store, colliding on key 1"
+	}
+	return "adding disjoint keys to one store with out-of-node values"
 }
